@@ -192,9 +192,21 @@ unary_sync!(b_descrambler, "Descrambler", u8, u8, |s: &mut Src, n| gen_bits(s, n
             let (b, o) = Descrambler::new_g3ruh(r);
             (Box::new(b) as _, o, "g3ruh".to_string(), Box::new(move |x: &[u8]| descramble_model(x, 0x21, 0, 16)) as _)
         } else {
-            let len = s.range(1, 20) as u8;
-            let mask = s.bits() & ((1u64 << (len as u64 + 1)) - 1);
-            let seed = s.bits() & ((1u64 << (len as u64 + 1)) - 1);
+            // The register is 64 bits wide and len may be up to 63: taps in the
+            // upper half must be exercised too.
+            let len = match s.below(4) {
+                0 | 1 => s.range(1, 20),
+                2 => s.range(21, 63),
+                _ => *s.pick(&[31usize, 32, 33, 40, 47, 62, 63]),
+            } as u8;
+            let width_mask = if len >= 63 { u64::MAX } else { (1u64 << (len as u64 + 1)) - 1 };
+            let mut mask = s.bits() & width_mask;
+            if s.chance(1, 3) {
+                // make sure the oldest tap is in use
+                mask |= 1;
+                mask |= 1u64 << (len as u64).min(63);
+            }
+            let seed = s.bits() & width_mask;
             let (b, o) = Descrambler::new(r, mask, seed, len);
             (Box::new(b) as _, o, format!("mask {mask:#x} seed {seed:#x} len {len}"), Box::new(move |x: &[u8]| descramble_model(x, mask, seed, len)) as _)
         }
